@@ -3,6 +3,7 @@
  * entry point.  fork() becomes a setjmp in the *caller's* frame (maildir(), which stays live while
  * the child body runs below it), so that the child can run inline as a second simulated process
  * and `_exit` of the child resumes the parent at the fork point with the child's pid.
+ * lseek() is redirected to a tracing wrapper (same semantics).
  */
 #ifndef C12_FORK_H
 #define C12_FORK_H
@@ -13,4 +14,8 @@ extern jmp_buf *c12_fork_prepare(void);   /* creates the child process record, r
 extern int c12_fork_child(void);          /* switch to the child; returns 0 (or -1: fork fails) */
 extern int c12_fork_parent(void);         /* child has exited or crashed: back in the parent; returns the child's pid */
 #define fork() (setjmp(*c12_fork_prepare()) == 0 ? c12_fork_child() : c12_fork_parent())
+/* lseek() of this translation unit (seek.h: seek_begin, seek_end, seek_cur are static inline) goes through a wrapper that
+ * records the call and its result in the trace (qsim's lseek is not traced): "P<i> lseek <fd> <off> <whence> -> <result>" */
+extern off_t c12_lseek(int fd, off_t off, int whence);
+#define lseek(fd, off, whence) c12_lseek((fd), (off), (whence))
 #endif
